@@ -11,6 +11,7 @@ import (
 	"io"
 	"math/rand"
 	"os"
+	"reflect"
 	"sort"
 	"sync"
 	"testing"
@@ -47,12 +48,24 @@ type recorder struct {
 	und content.Storage
 	mu  sync.Mutex
 	log []pushRec
+	// failBlobs: every push of something that is not a manifest fails
+	failBlobs bool
+	nfaulted  int
 }
+
+var errFault = errors.New("verif: injected push failure")
 
 func (r *recorder) Push(ctx context.Context, d ocispec.Descriptor, rd io.Reader) error {
 	r.mu.Lock()
 	r.log = append(r.log, pushRec{d.MediaType, d.Digest.String()})
+	fail := r.failBlobs && !isManifestMT(d.MediaType)
+	if fail {
+		r.nfaulted++
+	}
 	r.mu.Unlock()
+	if fail {
+		return errFault
+	}
 	return r.und.Push(ctx, d, rd)
 }
 
@@ -85,6 +98,8 @@ func errClass(err error) string {
 	switch {
 	case err == nil:
 		return "ok"
+	case errors.Is(err, errFault):
+		return "fault"
 	case errors.Is(err, errdef.ErrInvalidMediaType):
 		return "mediatype"
 	case errors.Is(err, oras.ErrMissingArtifactType):
@@ -207,6 +222,13 @@ func TestDrive(t *testing.T) {
 			var subject *ocispec.Descriptor
 			if c.Subject {
 				d := mkblob(ocispec.MediaTypeImageManifest, `{"schemaVersion":2,"mediaType":"application/vnd.oci.image.manifest.v1+json","config":{"mediaType":"application/vnd.oci.empty.v1+json","digest":"sha256:44136fa355b3678a1146ad16f7e8649e94fb4fc21fe77e8310c060f61caaff8a","size":2},"layers":[]}`)
+				if ci%2 == 1 {
+					// a subject as an image index lists it: with a platform, urls, annotations, artifact type and data
+					d.Platform = &ocispec.Platform{Architecture: "arm64", OS: "linux", Variant: "v8"}
+					d.URLs = []string{"https://mirror.example/subject"}
+					d.Annotations = map[string]string{"subject.note": "from an index entry"}
+					d.ArtifactType = "application/vnd.verif.subject"
+				}
 				subject = &d
 			}
 			var cfgDesc *ocispec.Descriptor
@@ -234,7 +256,7 @@ func TestDrive(t *testing.T) {
 					}
 				}
 			}
-			rec := &recorder{und: und}
+			rec := &recorder{und: und, failBlobs: c.Target == "faultblob"}
 			var pusher content.Pusher = recorderRO{rec}
 			if c.Target == "pusheronly" {
 				pusher = rec
@@ -264,7 +286,7 @@ func TestDrive(t *testing.T) {
 					nm++
 				}
 			}
-			m["nmanifest"] = nm
+			m["nmanifest"], m["nfaulted"] = nm, rec.nfaulted
 			req := map[string]any{"layers": dgs(layers), "subject": "", "ann": pairs(ann), "cfgdg": "", "cfgann": pairs(cfgAnn), "createdkey": createdKey}
 			if subject != nil {
 				req["subject"] = subject.Digest.String()
@@ -316,8 +338,10 @@ func TestDrive(t *testing.T) {
 					parsed["cfgmt"], parsed["cfgdg"], parsed["cfgsize"], parsed["cfgann"] = p.Config.MediaType, p.Config.Digest.String(), p.Config.Size, pairs(p.Config.Annotations)
 					cfgPresent, _ = und.Exists(ctx, ocispec.Descriptor{MediaType: p.Config.MediaType, Digest: p.Config.Digest, Size: p.Config.Size})
 				}
+				parsed["subjsame"] = false
 				if p.Subject != nil {
 					parsed["subject"] = p.Subject.Digest.String()
+					parsed["subjsame"] = subject != nil && reflect.DeepEqual(*p.Subject, *subject)
 				}
 				m["parsed"] = parsed
 				m["cfgpresent"] = cfgPresent
